@@ -106,3 +106,15 @@ func vs_sameObjectValidations(a, b spec.SchemaValidations) bool {
 }
 
 func vs_sameEnum(a, b spec.SchemaValidations) bool { return vs_same(a.Enum, b.Enum) }
+
+// ---- C06 / C07: security schemes handed to the authenticator switch ----
+
+// vs_schemeOK: the generated scheme g describes the spec's scheme of the same name: its kind flags
+// are exactly the (lower-cased) type of that scheme - basic, apikey, oauth2 - and the location and
+// parameter name are the scheme's.
+func vs_schemeOK(m map[string]spec.SecurityScheme, g GenSecurityScheme) bool {
+	return vs_has(m, g.ID) &&
+		g.Type == strings.ToLower(m[g.ID].Type) &&
+		g.IsBasicAuth == (g.Type == "basic") && g.IsAPIKeyAuth == (g.Type == "apikey") && g.IsOAuth2 == (g.Type == "oauth2") &&
+		g.Name == m[g.ID].Name && g.In == m[g.ID].In && g.Source == m[g.ID].In
+}
